@@ -42,9 +42,13 @@ Diagonal == { AReq(Val(JStr("QDOC")), Val(JStr("PLAIN")), Val(V2), Val(E1)),
               AReq(Val(JStr("NL")), Null, Null, Null) }
 Requests == {r \in [query : QF, op : OF, vars : VF, ext : EF] : NumSet(r) <= MaxSet} \cup Diagonal
 
-Variants == { [rev |-> FALSE, extra |-> "none"], [rev |-> TRUE, extra |-> "unknown"], [rev |-> FALSE, extra |-> "snake"] }
-V0 == [rev |-> FALSE, extra |-> "none"]
-V1r == [rev |-> TRUE, extra |-> "unknown"]
+\* the second and third variant also carry insignificant JSON whitespace (leading, interior, trailing)
+V0 == [rev |-> FALSE, extra |-> "none", ws |-> "none"]
+V1r == [rev |-> TRUE, extra |-> "unknown", ws |-> "mix"]
+V2s == [rev |-> FALSE, extra |-> "snake", ws |-> "lf"]
+Variants == {V0, V1r, V2s}
+WsKinds == {"sp", "tab", "cr", "lf", "mix"}
+WsVariants == {[rev |-> FALSE, extra |-> "none", ws |-> k] : k \in WsKinds}
 \* small runs (MaxSet < 3) give the "snake" variant only to requests with at most one field present (and the diagonal)
 VariantsFor(r) == IF MaxSet >= 3 \/ NumSet(r) <= 1 \/ r \in Diagonal THEN Variants ELSE {V0, V1r}
 
@@ -54,6 +58,7 @@ BatchPool == << AReq(Val(JStr("QDOC")), Val(JStr("PLAIN")), Val(V2), Val(E1)),
                 AReq(Val(JStr("UNI")), Val(JStr("QUOTE")), Absent, Null),
                 AReq(Absent, Absent, Absent, Absent) >>
 Batches == UNION { [1..k -> 1..Len(BatchPool)] : k \in 1..3 }
+WsBatches == { <<1>>, <<5>>, <<1, 2>>, <<3, 1, 4>> }
 
 Case(enc, mal, wire) == [kind |-> "decode", enc |-> enc, mal |-> mal, wire |-> wire]
 
@@ -62,6 +67,11 @@ GoodCases ==
   \cup
   { Case(enc, FALSE, Encode(enc, [i \in DOMAIN b |-> BatchPool[b[i]]], v)) :
        enc \in {"json-batch", "multipart-batch"}, b \in Batches, v \in {V0, V1r} }
+  \cup  \* each kind of whitespace on its own, around full requests and batches, in every transport
+  { Case(enc, FALSE, Encode(enc, <<r>>, v)) : enc \in {"json", "get", "multipart"}, r \in Diagonal, v \in WsVariants }
+  \cup
+  { Case(enc, FALSE, Encode(enc, [i \in DOMAIN b |-> BatchPool[b[i]]], v)) :
+       enc \in {"json-batch", "multipart-batch"}, b \in WsBatches, v \in WsVariants }
 
 \* ---- malformed wire forms --------------------------------------------------------
 Base == AReq(Val(JStr("QDOC")), Val(JStr("PLAIN")), Val(V2), Val(E1))
@@ -87,9 +97,9 @@ BadGetVals == BrokenTexts \cup WrongMap \cup {JObj(<<Mem("a", JBroken("garbage")
 SetParam(ps, key, j) == [i \in 1..Len(ps) |-> IF ps[i].key = key THEN Param(key, "json", "", j) ELSE ps[i]]
 
 MalformedCases ==
-  { Case("json", TRUE, Wire("json", j, <<>>, <<>>)) : j \in BadBodies }
-  \cup { Case("multipart", TRUE, Wire("multipart", JNull, <<>>, MpParts(j, v))) : j \in BadBodies, v \in {V0, [rev |-> TRUE, extra |-> "none"]} }
-  \cup { Case("get", TRUE, Wire("get", JNull, SetParam(GetParams(Base), key, j), <<>>)) : key \in {"variables", "extensions"}, j \in BadGetVals }
+  { Case("json", TRUE, Wire("json", ws, j, <<>>, <<>>)) : j \in BadBodies, ws \in {"none", "mix"} }
+  \cup { Case("multipart", TRUE, Wire("multipart", v.ws, JNull, <<>>, MpParts(j, v))) : j \in BadBodies, v \in {V0, [rev |-> TRUE, extra |-> "none", ws |-> "lf"]} }
+  \cup { Case("get", TRUE, Wire("get", ws, JNull, SetParam(GetParams(Base), key, j), <<>>)) : key \in {"variables", "extensions"}, j \in BadGetVals, ws \in {"none", "sp"} }
 
 AllCases == GoodCases \cup MalformedCases
 
@@ -100,15 +110,14 @@ Emit == PrintT(<<"REPLAY", ToJson(case)>>)
 
 \* reference laws, checked on the generated domain
 RoundTripLaw ==
-  /\ \A r \in Requests, v \in Variants, enc \in {"json", "get", "multipart"} :
+  /\ \A r \in Requests, v \in Variants \cup WsVariants, enc \in {"json", "get", "multipart"} :
         Decode(Encode(enc, <<r>>, v)) = Ok("single", <<Denote(r)>>)
-  /\ \A b \in Batches, enc \in {"json-batch", "multipart-batch"} :
+  /\ \A b \in Batches, enc \in {"json-batch", "multipart-batch"}, v \in {V0, V1r} \cup WsVariants :
         LET rs == [i \in DOMAIN b |-> BatchPool[b[i]]] IN
-        Decode(Encode(enc, rs, V0)) = Ok("batch", [i \in DOMAIN b |-> Denote(rs[i])])
+        Decode(Encode(enc, rs, v)) = Ok("batch", [i \in DOMAIN b |-> Denote(rs[i])])
 MalformedLaw == \A c \in MalformedCases : Decode(c.wire) = Err
 \* the deviations change nothing outside their trigger classes
-DevLocality == \A c \in AllCases : /\ (~DevGetTrigger(c.wire) /\ c.enc = "get") => DevGetDecode(c.wire) = Decode(c.wire)
-                                   /\ ~DevSeqTrigger(c.wire) => DevSeqDecode(c.wire) = Decode(c.wire)
+DevLocality == \A c \in AllCases : ~DevSeqTrigger(c.wire) => DevSeqDecode(c.wire) = Decode(c.wire)
 ASSUME RoundTripLaw
 ASSUME MalformedLaw
 ASSUME DevLocality
@@ -131,5 +140,5 @@ SNext == /\ UNCHANGED case
 SEmit == phase = "returned" =>
            \A enc \in ExecEncs(shape), api \in {"schema", "executor"} :
              PrintT(<<"REPLAY", ToJson([kind |-> "exec", enc |-> enc, api |-> api, n |-> n, sched |-> sched,
-                                       wire |-> Encode(enc, [i \in 1..n |-> ExecReq(i)], V0)])>>)
+                                       wire |-> Encode(enc, [i \in 1..n |-> ExecReq(i)], IF api = "executor" THEN V1r ELSE V0)])>>)
 =============================================================================
